@@ -166,7 +166,7 @@ def main(args, cfg):
         for k in pr:
             pr[k] += d[{"permutations": "total"}.get(k, k)]
         if d.get("panic"):
-            failures.append((r, "c01/panic", d["panic"][:1500], None))
+            failures.append((r, "c01/hang" if d["panic"].startswith("HANG:") else "c01/panic", d["panic"][:1500], None))
         elif not d["ok"] or d["err"] or d["failed"] or d["could_not_run"]:
             names = d["failed_names"] or [None]
             detail = "run %s: ok=%s err=%r failed=%d could-not-run=%d; %s" % (r["job"]["name"], d["ok"], d["err"], d["failed"], d["could_not_run"],
